@@ -55,9 +55,15 @@ Mul33(h) == LET p1 == h[1] * 33
                 p4 == h[4] * 33 + p3 \div 65536
             IN <<p1 % 65536, p2 % 65536, p3 % 65536, p4 % 65536>>
 XorLow(h, c) == <<(h[1] \div 256) * 256 + Xor8(h[1] % 256, c, 8), h[2], h[3], h[4]>>
-\* mpt_hash = djb2 variant  hash(i) = hash(i-1) * 33 ^ str[i], start 5381
+\* the text is read as (signed) char: a byte >= 128 is sign extended before the xor,
+\* i.e. every bit above the low byte is flipped as well
+XorChar(h, c) == IF c < 128 THEN XorLow(h, c)
+                 ELSE <<(255 - h[1] \div 256) * 256 + Xor8(h[1] % 256, c, 8),
+                        65535 - h[2], 65535 - h[3], 65535 - h[4]>>
+\* mpt_hash = djb2 variant  hash(i) = hash(i-1) * 33 ^ str[i], start 5381, over ALL bytes of
+\* the given length (a zero byte inside is hashed like any other)
 RECURSIVE Djb2From(_, _, _)
-Djb2From(h, t, i) == IF i > Len(t) THEN h ELSE Djb2From(XorLow(Mul33(h), t[i]), t, i + 1)
+Djb2From(h, t, i) == IF i > Len(t) THEN h ELSE Djb2From(XorChar(Mul33(h), t[i]), t, i + 1)
 Djb2(t) == Djb2From(L(5381), t, 1)
 
 \* largest id mpt_command_reserve hands out for an id width
@@ -246,16 +252,43 @@ EmitNone(hr) ==
        /\ Answer("emitnone", arg, -1, <<>>)
   ELSE Deliver("emitnone", arg, def, 0, hr)
 
-(* mpt_dispatch_hash: message <<cmd, sep>> \o payload; the command text is *)
-(* the payload up to the separator (sep, or NUL for sep = 0 / cmd not      *)
-(* Command); its hash is the id.  No default bookkeeping here: the         *)
-(* handler's answer is handed back, an error as Fail|Default.              *)
+(* mpt_dispatch_hash: message <<cmd, sep>> \o payload (however it is cut   *)
+(* into fragments).  The command text is the first argument of the         *)
+(* payload (mpt_message_argv); its hash is the id.  No default bookkeeping *)
+(* here: the handler's answer is handed back, an error as Fail|Default.    *)
+(*   sep = 0 (or cmd not Command): up to the first NUL, else everything;   *)
+(*   sep # 0: leading white space (isspace) is skipped first, then         *)
+(*     graphic sep: up to the first sep, else everything (a NUL inside is  *)
+(*                  part of the text);                                     *)
+(*     other sep:   up to the first blank/tab/newline/CR/VT outside of     *)
+(*                  '..' or ".." (a quote preceded by \ does not close);   *)
+(*                  without such a blank: up to the first NUL / the end.   *)
 CommandCmd == 4
+IsSpace(c) == c \in {9, 10, 11, 12, 13, 32}
+IsGraph(c) == c \in 33..126
+IsBlank(c) == c \in {9, 32, 10, 13, 11}
+UpTo(p, c) == LET hits == {i \in DOMAIN p : p[i] = c} IN
+              IF hits = {} THEN p ELSE SubSeq(p, 1, MinOf(hits) - 1)
+Trim(p)    == LET vis == {i \in DOMAIN p : ~IsSpace(p[i])} IN
+              IF vis = {} THEN p ELSE SubSeq(p, MinOf(vis), Len(p))
+\* number of bytes before the first blank outside quotes, -1 when there is none
+RECURSIVE BlankScan(_, _, _, _)
+BlankScan(p, i, quote, prev) ==
+  IF i > Len(p) THEN -1
+  ELSE LET c == p[i] IN
+       IF quote # 0 THEN BlankScan(p, i + 1, IF c = quote /\ prev # 92 THEN 0 ELSE quote, c)
+       ELSE IF c = 39 \/ c = 34 THEN BlankScan(p, i + 1, c, prev)
+       ELSE IF IsBlank(c) THEN i - 1
+       ELSE BlankScan(p, i + 1, 0, c)
 FirstArg(payload, sep) ==
-  LET hits == {i \in DOMAIN payload : payload[i] = sep} IN
-  IF hits = {} THEN payload ELSE SubSeq(payload, 1, MinOf(hits) - 1)
-HashEmit(cmd, sep, payload, split, hr) ==
-  LET arg  == [cmd |-> cmd, sep |-> sep, payload |-> payload, split |-> split, r |-> hr[1], clear |-> hr[2]]
+  IF sep = 0 THEN UpTo(payload, 0)
+  ELSE LET t == Trim(payload) IN
+       IF IsGraph(sep) THEN UpTo(t, sep)
+       ELSE LET n == BlankScan(t, 1, 0, 32) IN
+            IF n >= 0 THEN SubSeq(t, 1, n) ELSE UpTo(t, 0)
+\* cuts: where the message (header included) is cut into fragments; no influence on the meaning
+HashEmit(cmd, sep, payload, cuts, hr) ==
+  LET arg  == [cmd |-> cmd, sep |-> sep, payload |-> payload, cuts |-> cuts, r |-> hr[1], clear |-> hr[2]]
       text == FirstArg(payload, IF cmd = CommandCmd THEN sep ELSE 0)
       id   == Djb2(text)
       res(r) == IF r < 0 THEN 3 ELSE r
@@ -289,10 +322,11 @@ Next ==
   \/ \E n \in SmallIds \cup {200}, hr \in HRs : EmitMsg(<<n, 7>>, hr)
   \/ \E hr \in HRs : EmitMsg(<<>>, hr) \/ EmitNone(hr)
   \/ \E t \in Texts \cup {<<120>>}, hr \in HRs :
-        \/ HashEmit(CommandCmd, 58, t \o <<58, 122>>, 0, hr)     \* "text:z", separator ':'
-        \/ HashEmit(CommandCmd, 0, t \o <<0, 122>>, 1, hr)       \* zero-terminated, split after 1 byte
-        \/ HashEmit(0, 58, t, Len(t), hr)                        \* not a command message: whole text
-  \/ \E hr \in HRs : HashEmit(CommandCmd, 58, <<58, 122>>, 2, hr)   \* empty command text
+        \/ HashEmit(CommandCmd, 58, t \o <<58, 122>>, <<2>>, hr)           \* "text:z", separator ':'
+        \/ HashEmit(CommandCmd, 0, t \o <<0, 122>>, <<3>>, hr)             \* zero-terminated, cut after 1 byte
+        \/ HashEmit(0, 58, t, <<>>, hr)                                   \* not a command message
+        \/ HashEmit(CommandCmd, 32, <<32, 9>> \o t \o <<32, 122>>, <<3, 5>>, hr)  \* blank separated, cut in the text
+  \/ \E hr \in HRs : HashEmit(CommandCmd, 58, <<58, 122>>, <<2>>, hr)   \* empty command text
 
 Spec == Init /\ [][Next]_vars
 
